@@ -368,5 +368,9 @@ PROPS["C04"] = {
     "jobs": [
         {"name": "sendrpc_faults", "steps": 40000, "timeout_s": {"quick": 300, "thorough": 1500}, "pkg": "root", "entry": "VerifSendRPCFaults", "stubs": EST_STUBS, "reach": ["succeeded", "table-gone"],
          "preempts": {"quick": 1, "thorough": 2}, "params": {"quick": {"FAULTS": 2}, "thorough": {"FAULTS": 3}}},
+        {"name": "two_callers_busy", "steps": 40000, "timeout_s": {"quick": 300, "thorough": 1500}, "pkg": "root", "entry": "VerifTwoCallers", "stubs": EST_STUBS, "reach": ["both-returned"],
+         "preempts": {"quick": 1, "thorough": 2}, "params": {"quick": {"FAULTS": 1, "BUSY": 1}, "thorough": {"FAULTS": 1, "BUSY": 1}}},
+        {"name": "region_moved", "steps": 40000, "pkg": "root", "entry": "VerifRegionMoved", "stubs": EST_STUBS, "reach": ["moved"],
+         "params": {"quick": {"FAULTS": 0, "STALE": 2}, "thorough": {"FAULTS": 0, "STALE": 4}}},
     ],
 }
